@@ -24,22 +24,31 @@ Proof. exact remaining_codes. Qed.
 (* whole-body anchors: poll_accept_recv (accept loop, guards, `continue`s, retain), poll_control, process_goaway,
    poll_grease_stream, into_stream, poll_next_varint, poll_type, the server's accept / shutdown /
    poll_accept_request_stream_internal / poll_control (the `while` loop) / poll_next_control and the client's
-   poll_close are, statement for statement, the bodies the model was written against; after a deliberate change of
-   one of them the model is re-read against the code and the constant updated *)
+   poll_close / wait_idle, the server's poll_accept_request_stream / poll_requests_completion /
+   create_resolver_internal and the two PushId <-> VarInt conversions (identities in the model) are, statement for
+   statement (comments, white space, trailing commas and string literals aside), the bodies the model was written
+   against; the translator also checks that the `impl Connection` blocks of the two roles define exactly the functions
+   it knows (anything else is an anchor loss); after a deliberate change the model is re-read and the constant updated *)
 Theorem C04_source_shapes :
-  shape_poll_accept_recv = 741454059817761024 /\
-  shape_inner_poll_control = 610605719855264594 /\
-  shape_process_goaway = 849770796200219870 /\
-  shape_poll_grease_stream = 402698484532604429 /\
-  shape_into_stream = 604109462653454260 /\
-  shape_poll_next_varint = 722813221928172113 /\
+  shape_poll_accept_recv = 591983135190798518 /\
+  shape_inner_poll_control = 890975112773524947 /\
+  shape_process_goaway = 871731484758505634 /\
+  shape_poll_grease_stream = 635301977400214042 /\
+  shape_into_stream = 261516598973359362 /\
+  shape_poll_next_varint = 120984297333425183 /\
   shape_poll_type = 607312072019453852 /\
   shape_server_accept = 1127531358984613172 /\
   shape_server_shutdown = 832965435934073669 /\
-  shape_server_poll_accept_request = 156635046848499470 /\
+  shape_server_poll_accept_request = 17685302642143960 /\
   shape_server_poll_control = 1019207998921379069 /\
-  shape_server_poll_next_control = 786539864495094159 /\
-  shape_client_poll_close = 457050589089166871.
+  shape_server_poll_next_control = 426661483519124924 /\
+  shape_client_poll_close = 966646822472731881 /\
+  shape_client_wait_idle = 549684088248201512 /\
+  shape_server_poll_accept_request_stream = 818014197823978860 /\
+  shape_server_poll_requests_completion = 214212503412079944 /\
+  shape_server_create_resolver_internal = 928008039183429589 /\
+  shape_pushid_to_varint = 290316249488136314 /\
+  shape_varint_to_pushid = 1065242208624881100.
 Proof. exact source_shapes. Qed.
 
 (* stream type table, the types followed by a second varint, and the decision points of poll_next_varint /
